@@ -23,6 +23,14 @@
 (* chain growing or reorganising between the calls - or misbehave at       *)
 (* either call), and SGX verification reads the root of trust from a file  *)
 (* or fetches it from a URL (right PEM, another root, 404, garbage).       *)
+(*                                                                         *)
+(* The SHAPE of every signature a genuine device (or Intel) produces is an *)
+(* Env dimension as well: the byte lengths of r and s decide how a         *)
+(* signature is encoded (DER minimal integers on Ledger and in X.509,      *)
+(* fixed 32-byte fields in the SGX envelope, which the gatherer re-encodes *)
+(* as DER).  Classes per component: h32 (32 bytes, high bit set), l32,     *)
+(* b31h / b31l (a leading zero byte, then high bit set / clear), b30 (two  *)
+(* leading zero bytes); s = h32 is a high-s signature (P-256 only).        *)
 (* Messages are sequences of field ids, an altered field is "X", an        *)
 (* altered signature is NoSig (perfect cryptography, DESIGN.md 3.3).       *)
 (* Observations and properties come from AttestFlowProps, shared with the  *)
@@ -44,9 +52,10 @@ CONSTANTS Platforms,        \* subset of {"ledger", "sgx"}
 
 VARIABLES dev, cfg, alt,    \* Env: ground truth, shape of the answers, the one alteration
           net,              \* Env: [ud: "hex" | what the node does, at: which call, rootvia: "file" | "url"]
+          shape,            \* Env: [site: which signature (or "all" / "none"), cls: "<r class>/<s class>"]
           pc, acc,          \* Sys: program counter, what was gathered so far
           obs               \* the observation (AttestFlowProps)
-vars == <<dev, cfg, alt, net, pc, acc, obs>>
+vars == <<dev, cfg, alt, net, shape, pc, acc, obs>>
 
 (***************************************************************************)
 (* Ground truth of a genuine device.                                       *)
@@ -118,6 +127,30 @@ SgxAlts(c) ==
                                                \* by URL only: 4 = HTTP 404, 5 = a body that is no PEM
 
 Is(site) == alt.site = site
+
+(***************************************************************************)
+(* Signature shapes.                                                       *)
+(***************************************************************************)
+NoShape == [site |-> "none", cls |-> "any"]
+ShapesP256 == {"h32/h32", "l32/l32", "h32/l32", "l32/h32", "b31l/any", "b31h/any", "any/b31l", "any/b31h",
+               "b30/any"}
+\* libsecp256k1 (the verifier's library) refuses high-s by design and BOLOS signs low-s: no s = h32
+ShapesSecp == {"h32/l32", "l32/l32", "b31l/any", "b31h/any", "any/b31l", "any/b31h", "b30/any"}
+SigSites(p) == IF p = "ledger" THEN {"dc", "en", "ui", "sg", "all"}
+               ELSE {"q_sig", "qe_sig", "pck", "pca", "root", "all"}
+\* explored on genuine devices of the plain shape, with a typed UD value and the root from a file
+ShapeChoices(p, fr, c, a, nt) ==
+    {NoShape} \cup
+    (IF a = [site |-> "none", idx |-> 0] /\ c = Cfg1(p, fr) /\ nt = Net("hex", 0, "file")
+     THEN {[site |-> st, cls |-> cl] : st \in SigSites(p),
+                                       cl \in IF p = "ledger" THEN ShapesSecp ELSE ShapesP256}
+     ELSE {})
+ShapeAt(site) == IF shape.site \in {site, "all"} THEN shape.cls ELSE "any"
+\* a 32-byte field that starts with a zero byte followed by a byte below 0x80: its DER integer must
+\* drop the zero (minimal encoding)
+NeedsStrip(cls) == cls \in {"b31l/any", "any/b31l", "b30/any"}
+\* raw (r, s) of the envelope -> DER, as the gatherer does it
+ToDer(sig, cls) == IF Bug = "derpad" /\ NeedsStrip(cls) THEN NoSig ELSE sig
 
 (***************************************************************************)
 (* Paging: n non-empty pages of a sequence, [more, data].                  *)
@@ -230,6 +263,7 @@ Obs0(p, d, a, nt) ==
                   node_n |-> "0xn", node_url |-> "node_url", rootvia |-> nt.rootvia, root_url |-> "root_url",
                   http |-> <<>>, ud_sent |-> "", att_file |-> "no", contacted |-> "no",
                   g_err |-> "none", v_err |-> "none",
+                  sigsite |-> "none", sigclass |-> "any",
                   plat |-> p, framing |-> d.framing, alt |-> a.site, dev |-> d,
                   g_onboard |-> "na", g_attest |-> "na", gather |-> "fail",
                   file0 |-> <<>>, reload0 |-> <<>>, file |-> <<>>, reload |-> <<>>, reload_ok |-> "na",
@@ -239,15 +273,16 @@ Init == /\ acc = Acc0
         /\ \E p \in Platforms :
              IF p = "ledger"
              THEN \E fr \in Framings : \E c \in LedgerCfgs(fr) : \E a \in LedgerAlts(fr, c) :
-                  \E nt \in Nets(p, fr, c, a) :
-                    /\ dev = LedgerDev(fr, nt) /\ cfg = c /\ alt = a /\ net = nt /\ pc = "onboard"
-                    /\ obs = Obs0(p, LedgerDev(fr, nt), a, nt)
+                  \E nt \in Nets(p, fr, c, a) : \E sh \in ShapeChoices(p, fr, c, a, nt) :
+                    /\ dev = LedgerDev(fr, nt) /\ cfg = c /\ alt = a /\ net = nt /\ shape = sh /\ pc = "onboard"
+                    /\ obs = [Obs0(p, LedgerDev(fr, nt), a, nt) EXCEPT !.sigsite = sh.site, !.sigclass = sh.cls]
              ELSE \E c \in SgxCfgs : \E a \in SgxAlts(c) : \E nt \in Nets(p, "current", c, a) :
-                    /\ dev = SgxDev(nt) /\ cfg = c /\ alt = a /\ net = nt /\ pc = "ud"
-                    /\ obs = Obs0(p, SgxDev(nt), a, nt)
+                  \E sh \in ShapeChoices(p, "current", c, a, nt) :
+                    /\ dev = SgxDev(nt) /\ cfg = c /\ alt = a /\ net = nt /\ shape = sh /\ pc = "ud"
+                    /\ obs = [Obs0(p, SgxDev(nt), a, nt) EXCEPT !.sigsite = sh.site, !.sigclass = sh.cls]
 
 Go(p) == pc' = p
-Keep == UNCHANGED <<dev, cfg, alt, net>>
+Keep == UNCHANGED <<dev, cfg, alt, net, shape>>
 FailOnboard == /\ obs' = [obs EXCEPT !.g_onboard = "fail"] /\ Go("done")
 FailAttest  == /\ obs' = [obs EXCEPT !.g_attest = "fail", !.g_err = "AdminError"] /\ Go("done")
 
@@ -410,8 +445,9 @@ SxConvert == /\ pc = "sx_conv" /\ Keep /\ UNCHANGED acc
              /\ IF EnvParts.attkey = "X" \/ (EmptyAuthRefused /\ cfg.qeauth = 0) THEN FailAttest
                 ELSE Go("sx_save") /\ UNCHANGED obs
 FileX == LET p == EnvParts IN
-         << El("quote", "attestation", "none", p.quote, p.qsig, <<p.custom>>),
-            El("attestation", "quoting_enclave", "none", p.qebody, p.qesig, << <<p.attkey>>, <<p.auth>> >>),
+         << El("quote", "attestation", "none", p.quote, ToDer(p.qsig, ShapeAt("q_sig")), <<p.custom>>),
+            El("attestation", "quoting_enclave", "none", p.qebody, ToDer(p.qesig, ShapeAt("qe_sig")),
+               << <<p.attkey>>, <<p.auth>> >>),
             El("quoting_enclave", "platform_ca", "none", p.pck.tbs, p.pck.sig, <<>>),
             El("platform_ca", "sgx_root", "none",
                IF Bug = "swapmsg" THEN p.pck.tbs ELSE p.pca.tbs, p.pca.sig, <<>>) >>
@@ -493,6 +529,7 @@ NeverGatherFails == ~(Terminal /\ obs.gather = "fail")
 NeverVerifyFails == ~(Terminal /\ obs.verify = "fail")
 NeverLegacy      == ~(Terminal /\ obs.framing = "legacy" /\ obs.verify = "ok")
 NeverFourPages   == ~(Terminal /\ cfg.uip = 4 /\ obs.verify = "ok")
+NeverShapedOk    == ~(Terminal /\ obs.sigclass # "any" /\ obs.verify = "ok")
 NeverNodeOk      == ~(Terminal /\ obs.udsrc = "node" /\ obs.verify = "ok")
 NeverReorgOk     == ~(Terminal /\ obs.node = "reorg" /\ obs.verify = "ok")
 NeverNodeFails   == ~(Terminal /\ obs.udsrc = "node" /\ obs.g_err # "none")
